@@ -48,6 +48,28 @@ theorem C02_header_grammar (sec : SecId) (hs : sec.level ≤ 3) (options : List 
     Header.parseHeader valid (h.take (h.length - 1)) = .ok ⟨sec, Spec.reported (writtenPairs options)⟩ :=
   renderHeader_grammar sec hs options h hr hk valid hv
 
+/-- **Written values are representable.** `_write_section_header` refuses
+(`DiffXOptionValueError`, before anything is written) a value that is not made of
+option-value characters and a `str` value that `int()` accepts.  So for every header that
+is emitted: each written value matches `[A-Za-z0-9/_.-]+`, and each `str` value given —
+an encoding name, a mimetype, … — is read back as that string, not as an integer. -/
+theorem C02_written_values_ok (sec : SecId) (options : List (Bytes × Option HVal)) (h : Bytes)
+    (hr : renderHeader sec options = .ok h) :
+    (∀ p ∈ writtenPairs options, Header.valOk p.2 = true) ∧
+    (∀ k t, (k, some (HVal.str t)) ∈ options → Header.convert t.toAscii = .str t.toAscii) :=
+  renderHeader_values_ok sec options h hr
+
+/-- hence `C02_header_grammar` needs no hypothesis on the values: whenever the keys are
+option keys, an emitted header is in the specification's grammar and the reader of C11
+accepts it with exactly these options -/
+theorem C02_header_grammar_auto (sec : SecId) (hs : sec.level ≤ 3) (options : List (Bytes × Option HVal))
+    (h : Bytes) (hr : renderHeader sec options = .ok h)
+    (hk : ∀ p ∈ writtenPairs options, Header.keyOk p.1 = true) (valid : List SecId)
+    (hv : sec ∈ valid) :
+    Spec.GrammarOk sec (writtenPairs options) ∧
+    Header.parseHeader valid (h.take (h.length - 1)) = .ok ⟨sec, Spec.reported (writtenPairs options)⟩ :=
+  renderHeader_grammar_auto sec hs options h hr hk valid hv
+
 /-- **Length and layout of a content section.** An accepted content call appends
 exactly `header ++ content`, where the header's `length` option is the decimal
 number of content bytes. -/
